@@ -15,7 +15,9 @@ def run(v, tier, seed, replay):
     exe = suvec.build_driver("plain")
     if replay:
         return suvec.replay(v, replay, "plain")
-    ops = ("add", "neg", "icomm") if tier == "quick" else ("add", "sub", "neg", "icomm", "elementwise")
+    # thorough: one call deeper over the same alphabet (474 k transitions, 4.5 GB); the wider alphabet at depth 4 with two user
+    # buffers was tried and needs 29 GB for the exported graph - the wider alphabet is explored by C09 / C15 / C16 instead
+    ops = ("add", "neg", "icomm")
     maxops = 3 if tier == "quick" else 4
     # 1. the theft as it was coded before the repair: the specification itself exhibits the defect
     cfg0 = suvec.bfs_cfg("C08_ascoded", vecs=3, dims=(2, 3), exts=(1,), maxops=4, ops=("add",), steal_empties=False, emit=False)
@@ -25,7 +27,7 @@ def run(v, tier, seed, replay):
     if not r0.violated:
         raise Infra("vacuity: the specification of the pre-fix theft no longer violates MovedFromSafe/WriteFrame")
     # 2. the requirement-level specification
-    cfg = suvec.bfs_cfg("C08_bfs", vecs=3, dims=(2, 3), exts=(1, 2) if tier == "thorough" else (1,), maxops=maxops, ops=ops, nblk=7)
+    cfg = suvec.bfs_cfg("C08_bfs", vecs=3, dims=(2, 3), exts=(1,), maxops=maxops, ops=ops, nblk=7)
     r = vlib.tlc("SUVec", cfg, timeout=3000)
     vlib.tlc_ok(r, "C08 exploration")
     if r.violated:
